@@ -354,6 +354,26 @@ def check_jpl_pairs(case):
                 if got2.frame.name != dst:
                     raise Violation("jpl-orbit-frame", f"get_orbit({names[a]}).copy(frame={dst}) is in {got2.frame.name}")
                 compare(got2.base, ref, scale, f"get_orbit({names[a]}) seen from {dst}")
+    # every segment of the file taken BACKWARDS (the centre of the segment as seen from its target) through the public
+    # JplPropagator(<centre>, <frame of the target>), which the library documents for pairs the file does not hold
+    for t_ in K.bodies:
+        if t_ == 0:
+            continue
+        c_ = K.parent[t_]
+        rev = jpl.JplPropagator(fr[c_].center, fr[t_]).propagate(dt)
+        if rev.frame.name != names[t_]:
+            raise Violation("jpl-orbit-frame", f"JplPropagator({names[c_]}, frame {names[t_]}) answers in {rev.frame.name}")
+        compare(rev.base, ssb[c_] - ssb[t_], float(np.linalg.norm(ssb[t_][:3])), f"{names[c_]} seen from {names[t_]} (segment reversed)")
+    # the root of the kernel is the target of no segment: asking for its orbit is refused - or answered rightly
+    try:
+        root = jpl.get_orbit(names[0], dt)
+    except Exception:
+        root = None
+    if root is not None:
+        ic = next((b for b in K.bodies if names[b] == root.frame.name), None)
+        if ic is None:
+            raise Violation("jpl-orbit-frame", f"get_orbit({names[0]}) is given in the unknown frame {root.frame.name}")
+        compare(root.base, ssb[0] - ssb[ic], float(np.linalg.norm(ssb[ic][:3])), f"get_orbit({names[0]}) (about {names[ic]})")
     if with_pck and 301 in K.bodies and 399 in K.bodies and 3 in K.bodies:
         # the Moon held in an element form (its elements depend on the GM of the frame's central body - different
         # for Earth and EarthBarycenter once the PCK files are configured), sent from one centre to the other
